@@ -1,0 +1,201 @@
+//go:build verif
+
+package actionlint
+
+// Accessors for the verification harness of property C09 (no state leaks between jobs, steps and
+// expressions): a pass which records the mutable fields of the stateful rules after every visitor
+// callback. Built only with the "verif" tag.
+
+import (
+	"sort"
+	"strings"
+)
+
+// VerifRuleState is a snapshot of the mutable fields of the stateful rules.
+type VerifRuleState struct {
+	Event string
+
+	ExprMatrixNil, ExprStepsNil, ExprNeedsNil                     bool
+	ExprMatrix, ExprSteps, ExprNeeds                              string
+	ExprSecrets, ExprInputs, ExprDispatch, ExprJobs, ExprWorkflow bool // non-nil
+	Platform                                                      int
+	ScWorkflow, ScJob, ScRunner                                   string
+	PyWorkflow, PyJob                                             int
+	IDSeenNil                                                     bool
+	IDSeen                                                        string
+	CompatsNil                                                    bool
+	Nodes                                                         string
+	StepIsScript                                                  bool
+	StepShell                                                     string
+	StepPython                                                    bool
+}
+
+// VerifStateProbe is a pass to be appended after all rules.
+type VerifStateProbe struct {
+	RuleBase
+	expr  *RuleExpression
+	shell *RuleShellName
+	id    *RuleID
+	label *RuleRunnerLabel
+	needs *RuleJobNeeds
+	sc    *RuleShellcheck
+	py    *RulePyflakes
+	Trace []VerifRuleState
+}
+
+// verifNoStep wraps a rule and skips VisitStep (shellcheck/pyflakes would spawn processes there;
+// their VisitStep does not touch the rule's fields, what it reads is recorded by the probe).
+type verifNoStep struct{ Rule }
+
+func (verifNoStep) VisitStep(*Step) error { return nil }
+
+// VerifAttachStateProbe finds the stateful rules among the rules created by the linter, adds the
+// shellcheck and pyflakes rules (with a command that is never run) and appends the probe.
+func VerifAttachStateProbe(rules []Rule) ([]Rule, *VerifStateProbe) {
+	p := &VerifStateProbe{RuleBase: RuleBase{name: "verif-state-probe"}}
+	for _, r := range rules {
+		switch r := r.(type) {
+		case *RuleExpression:
+			p.expr = r
+		case *RuleShellName:
+			p.shell = r
+		case *RuleID:
+			p.id = r
+		case *RuleRunnerLabel:
+			p.label = r
+		case *RuleJobNeeds:
+			p.needs = r
+		}
+	}
+	proc := newConcurrentProcess(1)
+	p.sc = newRuleShellcheck(&externalCommand{proc: proc, exe: "true"})
+	p.py = newRulePyflakes(&externalCommand{proc: proc, exe: "true"})
+	rules = append(rules, verifNoStep{p.sc}, verifNoStep{p.py}, p)
+	return rules, p
+}
+
+func verifKeys(m map[string]ExprType) []string {
+	ks := make([]string, 0, len(m))
+	for k := range m {
+		ks = append(ks, k)
+	}
+	sort.Strings(ks)
+	return ks
+}
+
+// VerifDumpType prints a type with the Deref flags of its arrays.
+func VerifDumpType(t ExprType) string {
+	switch t := t.(type) {
+	case *ArrayType:
+		s := "[" + VerifDumpType(t.Elem) + "]"
+		if t.Deref {
+			s += "*"
+		}
+		return s
+	case *ObjectType:
+		var b strings.Builder
+		b.WriteString("{")
+		for _, k := range verifKeys(t.Props) {
+			b.WriteString(k + ":" + VerifDumpType(t.Props[k]) + ";")
+		}
+		b.WriteString("}")
+		if t.Mapped != nil {
+			b.WriteString("=>" + VerifDumpType(t.Mapped))
+		}
+		return b.String()
+	case nil:
+		return "nil"
+	default:
+		return t.String()
+	}
+}
+
+func (p *VerifStateProbe) snap(ev string, st *Step) {
+	s := VerifRuleState{Event: ev}
+	e := p.expr
+	s.ExprMatrixNil, s.ExprStepsNil, s.ExprNeedsNil = e.matrixTy == nil, e.stepsTy == nil, e.needsTy == nil
+	if e.matrixTy != nil {
+		s.ExprMatrix = VerifDumpType(e.matrixTy)
+	}
+	if e.stepsTy != nil {
+		s.ExprSteps = strings.Join(verifKeys(e.stepsTy.Props), ",")
+		if !e.stepsTy.IsStrict() {
+			s.ExprSteps += "!"
+		}
+	}
+	if e.needsTy != nil {
+		var b strings.Builder
+		for _, k := range verifKeys(e.needsTy.Props) {
+			b.WriteString(k + ":")
+			if o, ok := e.needsTy.Props[k].(*ObjectType); ok {
+				if out, ok := o.Props["outputs"].(*ObjectType); ok {
+					if out.Mapped != nil {
+						b.WriteString("*")
+					} else {
+						b.WriteString(strings.Join(verifKeys(out.Props), ","))
+					}
+				}
+			}
+			b.WriteString(";")
+		}
+		s.ExprNeeds = b.String()
+	}
+	s.ExprSecrets, s.ExprInputs, s.ExprDispatch, s.ExprJobs, s.ExprWorkflow =
+		e.secretsTy != nil, e.inputsTy != nil, e.dispatchInputsTy != nil, e.jobsTy != nil, e.workflow != nil
+	s.Platform = int(p.shell.platform)
+	s.ScWorkflow, s.ScJob, s.ScRunner = p.sc.workflowShell, p.sc.jobShell, p.sc.runnerShell
+	s.PyWorkflow, s.PyJob = int(p.py.workflowShellIsPython), int(p.py.jobShellIsPython)
+	s.IDSeenNil = p.id.seen == nil
+	ks := make([]string, 0, len(p.id.seen))
+	for k := range p.id.seen {
+		ks = append(ks, k)
+	}
+	sort.Strings(ks)
+	s.IDSeen = strings.Join(ks, ",")
+	s.CompatsNil = p.label.compats == nil
+	ns := make([]string, 0, len(p.needs.nodes))
+	for k := range p.needs.nodes {
+		ns = append(ns, k)
+	}
+	sort.Strings(ns)
+	var b strings.Builder
+	for _, k := range ns {
+		b.WriteString(k + ":" + strings.Join(p.needs.nodes[k].needs, ",") + ";")
+	}
+	s.Nodes = b.String()
+	if st != nil {
+		if run, ok := st.Exec.(*ExecRun); ok && run.Run != nil {
+			s.StepIsScript = true
+			s.StepShell = p.sc.getShellName(run)
+			s.StepPython = p.py.isPythonShell(run)
+		}
+	}
+	p.Trace = append(p.Trace, s)
+}
+
+// VisitWorkflowPre is callback when visiting Workflow node before visiting its children.
+func (p *VerifStateProbe) VisitWorkflowPre(*Workflow) error { p.snap("wfpre", nil); return nil }
+
+// VisitWorkflowPost is callback when visiting Workflow node after visiting its children.
+func (p *VerifStateProbe) VisitWorkflowPost(*Workflow) error { p.snap("wfpost", nil); return nil }
+
+// VisitJobPre is callback when visiting Job node before visiting its children.
+func (p *VerifStateProbe) VisitJobPre(*Job) error { p.snap("jobpre", nil); return nil }
+
+// VisitJobPost is callback when visiting Job node after visiting its children.
+func (p *VerifStateProbe) VisitJobPost(*Job) error { p.snap("jobpost", nil); return nil }
+
+// VisitStep is callback when visiting Step node.
+func (p *VerifStateProbe) VisitStep(n *Step) error { p.snap("step", n); return nil }
+
+// VerifMatrixTypeOf returns the dump of the type which a fresh RuleExpression computes for the
+// matrix of the job (nil matrix: "").
+func VerifMatrixTypeOf(w *Workflow, j *Job) string {
+	if j.Strategy == nil || j.Strategy.Matrix == nil {
+		return ""
+	}
+	r := NewRuleExpression(newNullLocalActionsCache(nil), newNullLocalReusableWorkflowCache(nil))
+	r.workflow = w
+	r.needsTy = r.calcNeedsType(j)
+	return VerifDumpType(r.checkMatrix(j.Strategy.Matrix))
+}
